@@ -4180,11 +4180,12 @@ func (p *Posix) CopyObject(ctx context.Context, input s3response.CopyObjectInput
 		if err != nil {
 			return nil, err
 		}
-		// In a bucket with versioning enabled a copy of an object onto
-		// itself is a write like any other: it yields a new version and
-		// leaves the copied one as it was, instead of rewriting the
-		// attributes of the existing version in place.
-		if p.isBucketVersioningEnabled(vStatus) {
+		// In a bucket with versioning enabled or suspended a copy of an
+		// object onto itself is a write like any other: it yields a new
+		// (or, when suspended, the null) version and leaves the copied
+		// one as it was, instead of rewriting the attributes of the
+		// existing version in place.
+		if p.isBucketVersioningEnabled(vStatus) || p.isBucketVersioningSuspended(vStatus) {
 			inPlace = false
 		}
 	}
